@@ -1,5 +1,127 @@
+import Xrl.JCore.JSplint
 import Xrl.JGen.Methods
+import Xrl.Gen.Fns
+/-!
+# C19 — the Java methods are observationally equivalent to the C functions (numeric core)
+-/
+set_option linter.unusedSimpArgs false
+set_option linter.unusedVariables false
+set_option linter.unusedSectionVars false
 namespace Xrl
 namespace C19
+
+/-- unfold the two generated definitions, instantiate the Java tables by the C tables, normalise the `int` ranges -/
+macro "jeq_start" ids:(ppSpace colGt ident)+ : tactic =>
+  `(tactic| (
+    unfold $ids*
+    simp only [ofC_ZMAX, ofC_SHELLNUM, ofC_SHELLNUM_K, ofC_SHELLNUM_A, ofC_TRANSNUM, ofC_LINENUM, ofC_AUGERNUM, ofC_RE2, ofC_MEC2, ofC_AVOGNUM, ofC_KEV2ANGST, ofC_R_E, ofC_AtomicWeight_arr, ofC_ElementDensity_arr, ofC_EdgeEnergy_arr, ofC_AtomicLevelWidth_arr, ofC_LineEnergy_arr, ofC_FluorYield_arr, ofC_JumpFactor_arr, ofC_CosKron_arr, ofC_RadRate_arr, ofC_xrf_cross_sections_constants_full, ofC_xrf_cross_sections_constants_auger_only, ofC_NE_Photo_arr, ofC_E_Photo_arr, ofC_CS_Photo_arr, ofC_CS_Photo_arr2, ofC_NE_Rayl_arr, ofC_E_Rayl_arr, ofC_CS_Rayl_arr, ofC_CS_Rayl_arr2, ofC_NE_Compt_arr, ofC_E_Compt_arr, ofC_CS_Compt_arr, ofC_CS_Compt_arr2, ofC_NE_Energy_arr, ofC_E_Energy_arr, ofC_CS_Energy_arr, ofC_CS_Energy_arr2, ofC_Nq_Rayl_arr, ofC_q_Rayl_arr, ofC_FF_Rayl_arr, ofC_FF_Rayl_arr2, ofC_Nq_Compt_arr, ofC_q_Compt_arr, ofC_SF_Compt_arr, ofC_SF_Compt_arr2, ofC_NE_Fi_arr, ofC_E_Fi_arr, ofC_Fi_arr, ofC_Fi_arr2, ofC_NE_Fii_arr, ofC_E_Fii_arr, ofC_Fii_arr, ofC_Fii_arr2, ofC_NE_Photo_Total_Kissel_arr, ofC_Electron_Config_Kissel_arr, ofC_NE_Photo_Partial_Kissel_arr, ofC_E_Photo_Partial_Kissel_arr, ofC_Photo_Partial_Kissel_arr, ofC_Photo_Partial_Kissel_arr2, ofC_NShells_ComptonProfiles_arr, ofC_Npz_ComptonProfiles_arr, ofC_UOCCUP_ComptonProfiles_arr, ofC_pz_ComptonProfiles_arr, ofC_Total_ComptonProfiles_arr, ofC_Total_ComptonProfiles_arr2, ofC_Partial_ComptonProfiles_arr, ofC_Partial_ComptonProfiles_arr2, ofC_Auger_Yields_arr, ofC_Auger_Rates_arr, Hdr.ZMAX, Hdr.SHELLNUM, Hdr.SHELLNUM_K, Hdr.SHELLNUM_A, Hdr.TRANSNUM, Hdr.LINENUM, Hdr.AUGERNUM,
+      Hdr.RE2, Hdr.MEC2, Hdr.AVOGNUM, Hdr.KEV2ANGST, Hdr.R_E, setErr_notFull (by assumption), inI32, INT_MIN, INT_MAX] at *))
+
+section accessors
+variable (T : Tables ℝ) (Z m : Int) (hZ : inI32 Z) (hm : inI32 m) (s : Slot) (hs : s.isFull = false)
+include hZ hs
+
+theorem java_eq_c_AtomicWeight : JRel (JGen.AtomicWeight (JTables.ofC T) Z) (Gen.AtomicWeight T Z s) s := by
+  jeq_start JGen.AtomicWeight Gen.AtomicWeight; jeq_auto
+
+theorem java_eq_c_ElementDensity : JRel (JGen.ElementDensity (JTables.ofC T) Z) (Gen.ElementDensity T Z s) s := by
+  jeq_start JGen.ElementDensity Gen.ElementDensity; jeq_auto
+
+include hm
+
+theorem java_eq_c_EdgeEnergy : JRel (JGen.EdgeEnergy (JTables.ofC T) Z m) (Gen.EdgeEnergy T Z m s) s := by
+  jeq_start JGen.EdgeEnergy Gen.EdgeEnergy; jeq_auto
+
+theorem java_eq_c_AtomicLevelWidth : JRel (JGen.AtomicLevelWidth (JTables.ofC T) Z m) (Gen.AtomicLevelWidth T Z m s) s := by
+  jeq_start JGen.AtomicLevelWidth Gen.AtomicLevelWidth; jeq_auto
+
+theorem java_eq_c_FluorYield : JRel (JGen.FluorYield (JTables.ofC T) Z m) (Gen.FluorYield T Z m s) s := by
+  jeq_start JGen.FluorYield Gen.FluorYield; jeq_auto
+
+theorem java_eq_c_JumpFactor : JRel (JGen.JumpFactor (JTables.ofC T) Z m) (Gen.JumpFactor T Z m s) s := by
+  jeq_start JGen.JumpFactor Gen.JumpFactor; jeq_auto
+
+theorem java_eq_c_CosKronTransProb : JRel (JGen.CosKronTransProb (JTables.ofC T) Z m) (Gen.CosKronTransProb T Z m s) s := by
+  jeq_start JGen.CosKronTransProb Gen.CosKronTransProb; jeq_auto
+
+theorem java_eq_c_ElectronConfig : JRel (JGen.ElectronConfig (JTables.ofC T) Z m) (Gen.ElectronConfig T Z m s) s := by
+  jeq_start JGen.ElectronConfig Gen.ElectronConfig; jeq_auto
+
+theorem java_eq_c_AugerRate : JRel (JGen.AugerRate (JTables.ofC T) Z m) (Gen.AugerRate T Z m s) s := by
+  jeq_start JGen.AugerRate Gen.AugerRate; jeq_auto
+
+theorem java_eq_c_AugerYield : JRel (JGen.AugerYield (JTables.ofC T) Z m) (Gen.AugerYield T Z m s) s := by
+  jeq_start JGen.AugerYield Gen.AugerYield; jeq_auto
+
+end accessors
+
+section closed_form
+variable (T : Tables ℝ) (E theta phi : ℝ) (s : Slot) (hs : s.isFull = false)
+include hs
+
+theorem java_eq_c_DCS_Thoms : JRel (JGen.DCS_Thoms (JTables.ofC T) theta) (Gen.DCS_Thoms T theta s) s := by
+  jeq_start JGen.DCS_Thoms Gen.DCS_Thoms; jeq_auto
+
+theorem java_eq_c_DCS_KN : JRel (JGen.DCS_KN (JTables.ofC T) E theta) (Gen.DCS_KN T E theta s) s := by
+  jeq_start JGen.DCS_KN Gen.DCS_KN; jeq_auto
+
+theorem java_eq_c_MomentTransf : JRel (JGen.MomentTransf (JTables.ofC T) E theta) (Gen.MomentTransf T E theta s) s := by
+  jeq_start JGen.MomentTransf Gen.MomentTransf; jeq_auto
+
+theorem java_eq_c_CS_KN : JRel (JGen.CS_KN (JTables.ofC T) E) (Gen.CS_KN T E s) s := by
+  jeq_start JGen.CS_KN Gen.CS_KN; jeq_auto
+
+theorem java_eq_c_ComptonEnergy : JRel (JGen.ComptonEnergy (JTables.ofC T) E theta) (Gen.ComptonEnergy T E theta s) s := by
+  jeq_start JGen.ComptonEnergy Gen.ComptonEnergy; jeq_auto
+
+theorem java_eq_c_DCSP_KN : JRel (JGen.DCSP_KN (JTables.ofC T) E theta phi) (Gen.DCSP_KN T E theta phi s) s := by
+  jeq_start JGen.DCSP_KN Gen.DCSP_KN; jeq_auto
+
+theorem java_eq_c_DCSP_Thoms : JRel (JGen.DCSP_Thoms (JTables.ofC T) theta phi) (Gen.DCSP_Thoms T theta phi s) s := by
+  jeq_start JGen.DCSP_Thoms Gen.DCSP_Thoms; jeq_auto
+
+end closed_form
+
+section spline
+variable (T : Tables ℝ) (Z : Int) (hZ : inI32 Z) (E : ℝ) (s : Slot) (hs : s.isFull = false)
+include hZ hs
+
+theorem java_eq_c_CS_Photo (hN : inI32 (T.NE_Photo Z.toNat)) : JRel (JGen.CS_Photo (JTables.ofC T) Z E) (Gen.CS_Photo T Z E s) s := by
+  rcases (jsplint_rel_vec (JTables.ofC T) (T.E_Photo_arr Z.toNat) (T.CS_Photo_arr Z.toNat) (T.CS_Photo_arr2 Z.toNat) (T.NE_Photo Z.toNat) hN
+    (Real.log (E * 1000.0)) s hs).cases with ⟨y, hc, hj⟩ | ⟨e, hc, hj⟩ | ⟨a, b, hc, hj⟩ | ⟨a, hc⟩ <;>
+  (jeq_start JGen.CS_Photo Gen.CS_Photo JGen.CS_Factory; jeq_auto)
+
+theorem java_eq_c_CS_Rayl (hN : inI32 (T.NE_Rayl Z.toNat)) : JRel (JGen.CS_Rayl (JTables.ofC T) Z E) (Gen.CS_Rayl T Z E s) s := by
+  rcases (jsplint_rel_vec (JTables.ofC T) (T.E_Rayl_arr Z.toNat) (T.CS_Rayl_arr Z.toNat) (T.CS_Rayl_arr2 Z.toNat) (T.NE_Rayl Z.toNat) hN
+    (Real.log (E * 1000.0)) s hs).cases with ⟨y, hc, hj⟩ | ⟨e, hc, hj⟩ | ⟨a, b, hc, hj⟩ | ⟨a, hc⟩ <;>
+  (jeq_start JGen.CS_Rayl Gen.CS_Rayl JGen.CS_Factory; jeq_auto)
+
+theorem java_eq_c_CS_Compt (hN : inI32 (T.NE_Compt Z.toNat)) : JRel (JGen.CS_Compt (JTables.ofC T) Z E) (Gen.CS_Compt T Z E s) s := by
+  rcases (jsplint_rel_vec (JTables.ofC T) (T.E_Compt_arr Z.toNat) (T.CS_Compt_arr Z.toNat) (T.CS_Compt_arr2 Z.toNat) (T.NE_Compt Z.toNat) hN
+    (Real.log (E * 1000.0)) s hs).cases with ⟨y, hc, hj⟩ | ⟨e, hc, hj⟩ | ⟨a, b, hc, hj⟩ | ⟨a, hc⟩ <;>
+  (jeq_start JGen.CS_Compt Gen.CS_Compt JGen.CS_Factory; jeq_auto)
+
+theorem java_eq_c_FF_Rayl (hN : inI32 (T.Nq_Rayl Z.toNat)) : JRel (JGen.FF_Rayl (JTables.ofC T) Z E) (Gen.FF_Rayl T Z E s) s := by
+  rcases (jsplint_rel_vec (JTables.ofC T) (T.q_Rayl_arr Z.toNat) (T.FF_Rayl_arr Z.toNat) (T.FF_Rayl_arr2 Z.toNat) (T.Nq_Rayl Z.toNat) hN
+    (E) s hs).cases with ⟨y, hc, hj⟩ | ⟨e, hc, hj⟩ | ⟨a, b, hc, hj⟩ | ⟨a, hc⟩ <;>
+  (jeq_start JGen.FF_Rayl Gen.FF_Rayl; jeq_auto)
+
+theorem java_eq_c_SF_Compt (hN : inI32 (T.Nq_Compt Z.toNat)) : JRel (JGen.SF_Compt (JTables.ofC T) Z E) (Gen.SF_Compt T Z E s) s := by
+  rcases (jsplint_rel_vec (JTables.ofC T) (T.q_Compt_arr Z.toNat) (T.SF_Compt_arr Z.toNat) (T.SF_Compt_arr2 Z.toNat) (T.Nq_Compt Z.toNat) hN
+    (E) s hs).cases with ⟨y, hc, hj⟩ | ⟨e, hc, hj⟩ | ⟨a, b, hc, hj⟩ | ⟨a, hc⟩ <;>
+  (jeq_start JGen.SF_Compt Gen.SF_Compt; jeq_auto)
+
+theorem java_eq_c_Fii (hN : inI32 (T.NE_Fii Z.toNat)) : JRel (JGen.Fii (JTables.ofC T) Z E) (Gen.Fii T Z E s) s := by
+  rcases (jsplint_rel_vec (JTables.ofC T) (T.E_Fii_arr Z.toNat) (T.Fii_arr Z.toNat) (T.Fii_arr2 Z.toNat) (T.NE_Fii Z.toNat) hN
+    (E) s hs).cases with ⟨y, hc, hj⟩ | ⟨e, hc, hj⟩ | ⟨a, b, hc, hj⟩ | ⟨a, hc⟩ <;>
+  (jeq_start JGen.Fii Gen.Fii; jeq_auto)
+
+theorem java_eq_c_ComptonProfile (hN : inI32 (T.Npz_ComptonProfiles Z.toNat)) : JRel (JGen.ComptonProfile (JTables.ofC T) Z E) (Gen.ComptonProfile T Z E s) s := by
+  rcases (jsplint_rel_vec (JTables.ofC T) (T.pz_ComptonProfiles Z.toNat) (T.Total_ComptonProfiles Z.toNat) (T.Total_ComptonProfiles2 Z.toNat) (T.Npz_ComptonProfiles Z.toNat) hN
+    (Real.log (E + 1.0)) s hs).cases with ⟨y, hc, hj⟩ | ⟨e, hc, hj⟩ | ⟨a, b, hc, hj⟩ | ⟨a, hc⟩ <;>
+  (jeq_start JGen.ComptonProfile Gen.ComptonProfile; jeq_auto)
+
+end spline
+
 end C19
 end Xrl
